@@ -102,7 +102,7 @@ class CtlRun(object):
         self.max_queue = 1 + ch.draw(P.get('max_queue', 8), 'maxq')
         self.p_5xx = ch.pick([0, 1, 3], 'p5xx')
         self.p_percb = ch.pick([0, 2, 5], 'ppercb')
-        self.allow_long = ch.chance(1, 40, 'long')
+        self.allow_long = ch.chance(1, 40, 'long') and self.prop != 'C03'
         self.n_events = 0
         self.n_listener_ops = 0
         if self.prop == 'C02':
@@ -214,11 +214,11 @@ class CtlRun(object):
                 for q in range(nl):
                     t = self.draw_text('%s.p%d.d%d' % (tag, p, q), data_line=True, allow_ok=not incr)
                     if incr and t.strip() == 'OK':
-                        if sim.gate('data-line-OK'):
+                        if self.prop == 'C01' and sim.gate('data-line-OK'):
                             sim.probe('incr-ok-data-line')
                         else:
                             t = 'ok'
-                    if ch.chance(1, 8, 'dot') and sim.gate('dot-stuffed-line'):
+                    if self.prop == 'C01' and ch.chance(1, 8, 'dot') and sim.gate('dot-stuffed-line'):
                         t = '.' + t
                         sim.probe('dot-stuffed-data-line')
                     dl.append(t)
@@ -405,7 +405,9 @@ class CtlRun(object):
                 sim.fail(prop + '.resolved-before-its-reply',
                          'command %d resolved (%r) but only %d replies are complete' % (c.idx, c.outcome, d))
         # outcome content: check each command once, when it resolves
-        for c in self.cmds:
+        for i, c in enumerate(self.cmds):
+            if self.cut_done and i >= d:
+                break
             if c.observed and c.done and c.expected is not None and c.idx not in self._checked:
                 self._checked.add(c.idx)
                 self.check_outcome(c)
@@ -525,7 +527,8 @@ class CtlRun(object):
         if eid is None and self.events_checked < len(self.events):
             # event without arguments: attribute to the oldest unchecked no-arg event of that name
             for ev in self.events[self.events_checked:]:
-                if ev['noargs'] and ev['name'] == l.name:
+                if ev['noargs'] and ev['name'] == l.name and not any(
+                        e == ev['eid'] and lid == l.lid for e, lid, _ in self.step_calls):
                     eid = ev['eid']
                     break
         sim.log('listener-call', l.lid, eid, payload[:60])
@@ -590,6 +593,10 @@ class CtlRun(object):
                                  ev['eid'], name, ev['form'], ev['inflight'], lid, got, may, sorted(removed)))
             for lid, p in calls:
                 if p not in ev['payloads']:
+                    if ev['form'] != 'single' and ev['inflight'] in ('incr', 'rawcb'):
+                        sim.fail('C02.listener-missed-event-perline-command-in-flight',
+                                 'event %d (%s form, in-flight command: %s) reached listener %d as %r, expected one of %r' % (
+                                     ev['eid'], ev['form'], ev['inflight'], lid, p, sorted(ev['payloads'])))
                     sim.fail('C02.event-payload-mismatch', 'event %d payload %r, expected one of %r' % (
                         ev['eid'], p, sorted(ev['payloads'])))
             for nm in list(S):
